@@ -47,7 +47,6 @@ func SMTP(options ...services.ServicerFunc) services.Servicer {
 			srv: &Server{
 				tlsConfig: nil,
 			},
-			receiveChan: make(chan Message),
 		},
 	}
 
@@ -77,13 +76,6 @@ func SMTP(options ...services.ServicerFunc) services.Servicer {
 
 	s.srv.Banner = banner.String()
 
-	handler := HandleFunc(func(msg Message) error {
-		s.receiveChan <- msg
-		return nil
-	})
-
-	s.srv.Handler = handler
-
 	return s
 }
 
@@ -99,8 +91,6 @@ type Config struct {
 	bannerData
 
 	srv *Server
-
-	receiveChan chan Message
 }
 
 type Service struct {
@@ -122,11 +112,20 @@ func (s *Service) Handle(ctx context.Context, conn net.Conn) error {
 
 	rcvLine := make(chan string)
 
+	// the messages received on this connection
+	rcvMessage := make(chan Message)
+
+	// ends the goroutine below when the connection is done
+	done := make(chan struct{})
+	defer close(done)
+
 	// Wait for a message and send it into the eventbus
 	go func() {
 		for {
 			select {
-			case message := <-s.receiveChan:
+			case <-done:
+				return
+			case message := <-rcvMessage:
 				header := []event.Option{}
 
 				for key, values := range message.Header {
@@ -164,8 +163,19 @@ func (s *Service) Handle(ctx context.Context, conn net.Conn) error {
 		}
 	}()
 
+	// a server of its own for this connection, its handler delivers to the
+	// goroutine above and not to whichever connection reads first
+	mux := NewServeMux()
+	mux.HandleFunc(func(msg Message) error {
+		rcvMessage <- msg
+		return nil
+	})
+
+	srv := *s.srv
+	srv.Handler = mux
+
 	//Create new smtp server connection
-	c := s.srv.newConn(conn, rcvLine)
+	c := srv.newConn(conn, rcvLine)
 	// Start server loop
 	c.serve()
 	return nil
